@@ -237,8 +237,8 @@ def config_part(chk, rnd, tmp):
     for n, vec in enumerate(vectors):
         if chk.quick:  # one manner per stack; the file-based ones (slow) for every tenth stack
             modes = (('files', 'read')[n // 10 % 2],) if n % 10 == 0 else (('update', 'kwargs', 'pairs')[n % 3],)
-        else:  # every manner for every tenth stack, one for the others
-            modes = MODES if n % 10 == 0 else (MODES[n % len(MODES)],)
+        else:  # every manner for every twentieth stack, one for the others
+            modes = MODES if n % 20 == 0 else (MODES[n % len(MODES)],)
         items.append((n, vec, modes))
     procs = 1 if chk.quick else 4
     sdirs = [tempfile.mkdtemp(prefix='cfgfiles-', dir=tmp) for _ in range(procs)]
@@ -806,7 +806,7 @@ def bank_modules_part(chk, rnd, tmp):
     if not vectors:
         raise tlc.MachineryError('Bank.tla (modules) exported no behaviour')
     total = len(vectors)
-    cap = 2500 if chk.quick else 60000
+    cap = 2500 if chk.quick else 30000
     if total > cap:  # seeded sample of the exported behaviours (all of them are model-checked above)
         vectors = rnd.sample(vectors, cap)
     for vec in vectors:
